@@ -244,11 +244,13 @@ LINE_LOCAL = ("whitespace", "case", "indent", "alignment")
 
 
 def changed_lines(a, b):
-    la = [x.rstrip() for x in a.split("\n")]
-    lb = [x.rstrip() for x in b.split("\n")]
+    """lines that differ, not counting a line whose only change is the removal of its trailing whitespace
+    (the file-wide clean-up that accompanies any write-back)"""
+    la = a.split("\n")
+    lb = b.split("\n")
     if len(la) != len(lb):
         return None
-    return [i + 1 for i, (x, y) in enumerate(zip(la, lb)) if x != y]
+    return [i + 1 for i, (x, y) in enumerate(zip(la, lb)) if x != y and y != x.rstrip()]
 
 
 def fixonly_records(job, nid):
